@@ -1020,7 +1020,9 @@ class StructArray(FieldValidator, abc.Sequence, Generic[_S]):
             )
 
         if _VALIDATION_ENABLED.get():
-            if isinstance(value, abc.Iterable) or hasattr(value, "__getitem__"):
+            # a slice takes a sequence of structures, an index exactly one structure
+            # (ctypes would build a structure from a tuple, e.g. zero it from ``()``)
+            if isinstance(key, slice):
                 self.validate_many(value)
             else:
                 self.validate_one(value)
